@@ -167,8 +167,14 @@ func BuildType(t *TypeRecipe) schema.Type {
 		return schema.NewRefSchema(t.Ref, nil)
 	case "oneof_s":
 		m := map[string]schema.Object{}
+		// discriminator values that select the same object share one reference value, as hand-written
+		// schemas with aliased members do
+		refs := map[string]*schema.RefSchema{}
 		for _, kv := range t.OneOf {
-			m[kv[0]] = schema.NewRefSchema(kv[1], nil)
+			if refs[kv[1]] == nil {
+				refs[kv[1]] = schema.NewRefSchema(kv[1], nil)
+			}
+			m[kv[0]] = refs[kv[1]]
 		}
 		return schema.NewOneOfStringSchema[any](m, t.Disc, t.Inline)
 	case "oneof_i":
@@ -463,6 +469,10 @@ func (g *gen) typ(ids []string, idx int, depth int, allowObj bool) TypeRecipe {
 			obj := ids[idx+1+i]
 			if k == "oneof_s" {
 				t.OneOf = append(t.OneOf, [2]string{fmt.Sprintf("m%d", i), obj})
+				// aliases: several discriminator values may select the same member object
+				if g.s.Choose("g.alias", 3) == 2 {
+					t.OneOf = append(t.OneOf, [2]string{fmt.Sprintf("a%d", i), obj})
+				}
 			} else {
 				t.OneOfI = append(t.OneOfI, OneOfIntRe{Key: int64(i + 1), Obj: obj})
 			}
